@@ -45,7 +45,7 @@ class Run:
     """one observer on one scratch universe"""
 
     def __init__(self, recursive=True, full=False, as_bytes=False, root_spelling=None, small_reads=False, vanish_at=None,
-                 rm_fault_at=None, gate_reads=False, vanish_file=False, vanish_back=False):
+                 rm_fault_at=None, gate_reads=False, vanish_file=False, vanish_back=False, overflow_at=None):
         from watchdog.observers import inotify_c
         from watchdog.observers.inotify import InotifyObserver
 
@@ -73,9 +73,22 @@ class Run:
 
             def read(self, fd, n, _real=self._real_os):
                 run.gate.wait(10)
-                return _real.read(fd, n)
+                data = _real.read(fd, n)
+                # (a'') the kernel's queue-overflow record (wd = -1, IN_Q_OVERFLOW, no name) at the end of the k-th read that
+                #       returned inotify records after the start: what the kernel sends when its queue was full - here without
+                #       any record having been lost, so every operation is still reported
+                if run.overflow_at is not None and run.started and len(data) >= 16:
+                    run.record_reads += 1
+                    if run.record_reads == run.overflow_at:
+                        import struct
+                        data += struct.pack("iIII", -1, 0x4000, 0, 0)
+                        run.overflows += 1
+                return data
 
-        if gate_reads:
+        self.overflow_at = overflow_at
+        self.record_reads = 0
+        self.overflows = 0
+        if gate_reads or overflow_at is not None:
             inotify_c.os = _OsProxy()
         self._real_add_watch = inotify_c.inotify_add_watch
         self.add_calls = 0
@@ -669,10 +682,10 @@ def gen_paced(r, n):
 
 
 def run_bursts(init_ops, bursts, recursive=True, full=False, small_reads=False, vanish_at=None, rm_fault_at=None, gate_reads=False,
-               vanish_file=False, vanish_back=False):
+               vanish_file=False, vanish_back=False, overflow_at=None):
     """every burst is issued while the reader is held off; returns the delivered events per burst, the trees and probes"""
     r = Run(recursive, full, False, small_reads=small_reads, vanish_at=vanish_at, rm_fault_at=rm_fault_at, gate_reads=gate_reads,
-            vanish_file=vanish_file, vanish_back=vanish_back)
+            vanish_file=vanish_file, vanish_back=vanish_back, overflow_at=overflow_at)
     try:
         for op in init_ops:
             r.uni.apply(op)
@@ -698,7 +711,7 @@ def run_bursts(init_ops, bursts, recursive=True, full=False, small_reads=False, 
                 probe_results.append((d, d.count("/"), seen))
                 r.step(("unlink", pr))
         return {"per_op": per, "applied": applied_all, "tree": tree, "initial_tree": initial_tree, "timeout": timeout,
-                "thread_errors": list(r.thread_errors), "probes": probe_results, "vanished": list(r.vanished), "rm_faults": r.rm_faults,
+                "thread_errors": list(r.thread_errors), "probes": probe_results, "vanished": list(r.vanished), "rm_faults": r.rm_faults, "overflows": r.overflows,
                 "root_gone": not r.root_exists(), "initial_outside": initial_outside}
     finally:
         r.stop()
